@@ -42,9 +42,17 @@ def is_local(op, n=None):
     return 'l' in op and not op['p'] and (n is None or op['l'] == n)
 
 
+_LIT_RX = re.compile(r'^(-?\d+)_(?:[ui](?:8|16|32|64|128|size))$')
+
+
 def const_val(op):
     if op.get('k') == 'const' and 'val' in op:
         return int(op['val'])
+    # literals the extractor could not evaluate (type-level constants of range patterns print as `3_u64`)
+    if op.get('k') == 'const' and not op.get('def'):
+        m = _LIT_RX.match(op.get('text') or '')
+        if m:
+            return int(m.group(1))
     return None
 
 
@@ -1182,3 +1190,57 @@ def specialise(f, def_suffix, value):
         if dead != live:
             rem.append((cs['bb'], dead))
     return pruned(f, rem)
+
+
+_BINOPS = {
+    'Eq': lambda a, b: a == b, 'Ne': lambda a, b: a != b, 'Lt': lambda a, b: a < b, 'Le': lambda a, b: a <= b,
+    'Gt': lambda a, b: a > b, 'Ge': lambda a, b: a >= b, 'BitAnd': lambda a, b: a & b, 'BitOr': lambda a, b: a | b,
+    'BitXor': lambda a, b: a ^ b, 'Add': lambda a, b: a + b, 'Sub': lambda a, b: a - b,
+}
+
+
+def eval_with(e, subj, v):
+    """Evaluate expression e to an int with every sub-expression satisfying subj(e) replaced by the
+    integer v; None when the value depends on anything else."""
+    if subj(e):
+        return v
+    k = e[0]
+    if k == 'const':
+        x = e[1]
+        if isinstance(x, bool):
+            return int(x)
+        return x if isinstance(x, int) else None
+    if k == 'bin' and e[1] in _BINOPS:
+        a = eval_with(e[2], subj, v)
+        b = eval_with(e[3], subj, v)
+        if a is None or b is None:
+            return None
+        return int(_BINOPS[e[1]](a, b))
+    if k == 'un' and e[1] == 'Not':
+        a = eval_with(e[2], subj, v)
+        return None if a is None else int(not a)
+    return None
+
+
+def specialise_value(f, subj, v, eb=None):
+    """prune the CFG under `subject == v`: every switch whose discriminant is a function of the subject
+    (and constants) alone keeps only the edge taken for v.  Used to ask "can a completion whose
+    user_data is <v> reach ...", independent of whether the source writes a match arm, a range
+    pattern or an if-chain."""
+    eb = eb or ExprBuilder(f)
+    rem = []
+    decided = []
+    for b, blk in enumerate(f.blocks):
+        t = blk['term']
+        if blk['cleanup'] or t['k'] != 'switch':
+            continue
+        val = eval_with(eb.operand(t['discr']), subj, v)
+        if val is None:
+            continue
+        vals = {int(x): tgt for x, tgt in t['targets']}
+        live = vals.get(val, t['otherwise'])
+        decided.append(b)
+        for s in set(list(vals.values()) + [t['otherwise']]):
+            if s != live:
+                rem.append((b, s))
+    return pruned(f, rem), decided
